@@ -34,7 +34,7 @@ def strategy(draw, tier="quick"):
     mode = draw(st.sampled_from(["vacuum", "temperature", "pressure"]))
     perm = {"mode": mode, "T": draw(gen.uniform(120.0, 300.0)) if mode == "temperature" else None,
             "p": draw(st.one_of(st.just(0.0), gen.loguniform(1e-3, 100.0))) if mode == "pressure" else None}
-    return {"c1": c1, "c2": c2, "e1": e1, "e2": e2, "T": t, "perm": perm}
+    return {"c1": c1, "c2": c2, "e1": e1, "e2": e2, "T": t, "perm": perm, "interleave": draw(st.booleans())}
 
 
 def _ref_ea(exps):
@@ -79,7 +79,7 @@ def check(case):
 
 def _check(case):
     c1, c2 = build.component(case["c1"]), build.component(case["c2"])
-    spec = {"name": "M", "e1": case["e1"]["exps"], "e2": case["e2"]["exps"]}
+    spec = {"name": "M", "e1": case["e1"]["exps"], "e2": case["e2"]["exps"], "interleave": case.get("interleave", False)}
 
     class _Mix:  # build.membrane only needs the two components
         first_component, second_component = c1, c2
